@@ -101,10 +101,11 @@ Proof.
   destruct (metavars_in_order d a) as [|v vs] eqn:E.
   - destruct ts; [|discriminate]. simpl in HS. subst q. exists t. split; [reflexivity|].
     rewrite <- HS. apply same_but_refl.
-  - simpl map at 1.
-    change (mvid d v :: map (mvid d) vs) with (map (mvid d) (v :: vs)).
-    eapply inst_run; [exact HS | | exact HI].
-    rewrite !rev_length, !map_length. symmetry. exact L.
+  - assert (R: exists t', do [OInst (rev (map (mvid d) (v :: vs)))] t = Some t' /\
+                 same_but t t' ((if proved then TProved q else TPat q) :: srest) []).
+    { eapply inst_run; [exact HS | | exact HI].
+      rewrite !rev_length, !map_length. symmetry. exact L. }
+    exact R.
 Qed.
 
 (** ---- constructor axioms *)
@@ -130,14 +131,17 @@ Proof.
   - destruct S1 as [S1 _]. rewrite S1. simpl. rewrite ESt. reflexivity.
   - destruct (metavars_in_order d a) as [|v vs] eqn:EM.
     + simpl. rewrite tsubst_nil. reflexivity.
-    + rewrite <- EM. apply (inst_img d sid HPF HND HENV); [exact TO | apply (mio_NoDup d HPF HND) | symmetry; exact L |].
-      intros w Hw. eapply mio_in; [exact HPF | exact Hw].
+    + rewrite <- EM in *.
+      assert (ND: NoDup (metavars_in_order d a)) by (apply mio_NoDup; assumption).
+      assert (HIN: forall w, In w (metavars_in_order d a) -> In w (float_vars d)) by (intros w Hw; eapply mio_in; eassumption).
+      assert (L': length (metavars_in_order d a) = length ts) by (symmetry; exact L).
+      apply inst_img; assumption.
   - exists t2. split; [exact D2|]. pose proof (same_but_trans _ _ _ _ _ _ _ S1 S2) as S. split.
     + eapply inv_same_but; [exact I | exact S |]. rewrite E2. constructor; [apply rel_mk_pat | exact HR].
     + destruct S as (_ & _ & _ & _ & S). exact S.
 Qed.
 
-Lemma two_vars a x y ts :
+Lemma two_vars a x y (ts:list mmterm) :
   listN_eqb (mand_float_vars d a) [x; y] = true -> length ts = length (metavars_in_order d a) ->
   metavars_in_order d a = [x; y] /\ x <> y /\ exists t1 t2, ts = [t1; t2].
 Proof.
@@ -150,7 +154,7 @@ Proof.
       apply N.eqb_eq in H1, H2. subst. reflexivity.
     - apply andb_true_iff in HL as [_ H2]. apply andb_true_iff in H2 as [_ H2]. discriminate. }
   split; [exact E|]. split.
-  - pose proof (mio_NoDup d HPF HND a) as ND. rewrite E in ND. inversion ND; subst. intros ->. apply H1. left. reflexivity.
+  - assert (ND: NoDup (metavars_in_order d a)) by (apply mio_NoDup; assumption). rewrite E in ND. inversion ND; subst. intros ->. apply H1. left. reflexivity.
   - rewrite E in L. destruct ts as [|t1 [|t2 [|? ?]]]; try discriminate. exists t1, t2. reflexivity.
 Qed.
 
@@ -240,17 +244,17 @@ Proof.
   - rewrite EP. destruct (metavars_in_order d a) as [|v vs] eqn:EM.
     + subst s. simpl combine in *. unfold PE. rewrite tsubst_nil.
       f_equal. rewrite map_map. apply map_ext. intros u. rewrite tsubst_nil. reflexivity.
-    + rewrite <- EM. apply inst_chain_imp.
-      * unfold PE. unfold eterms. clear -HE HPF HND HENV L EM.
-        assert (HL: length (metavars_in_order d a) = length ts) by (rewrite EM; symmetry; exact L).
-        rewrite <- EM in *. clear EM L.
+    + subst PE s. rewrite <- EM in *.
+      assert (ND: NoDup (metavars_in_order d a)) by (apply mio_NoDup; assumption).
+      assert (HIN: forall w, In w (metavars_in_order d a) -> In w (float_vars d)) by (intros w Hw; eapply mio_in; eassumption).
+      assert (L': length (metavars_in_order d a) = length ts) by (symmetry; exact L).
+      apply inst_chain_imp.
+      * unfold eterms. clear -HE HPF HND HENV L' ND HIN.
         induction (a_ess a) as [|e es IH]; simpl; constructor.
         -- simpl in HE. apply andb_true_iff in HE as [H _]. apply andb_true_iff in H as [_ H].
-           apply (inst_img d sid HPF HND HENV); [exact H | apply (mio_NoDup d HPF HND) | exact HL |].
-           intros w Hw. eapply mio_in; [exact HPF | exact Hw].
+           apply inst_img; assumption.
         -- apply IH. simpl in HE. apply andb_true_iff in HE as [_ H]. exact H.
-      * apply (inst_img d sid HPF HND HENV); [exact HT | apply (mio_NoDup d HPF HND) | rewrite EM; symmetry; exact L |].
-        intros w Hw. eapply mio_in; [exact HPF | exact Hw].
+      * apply inst_img; assumption.
   - rewrite D3.
     (* modus ponens with every antecedent *)
     rewrite <- map_rev, rev_involutive.
